@@ -7,6 +7,7 @@ import (
 	"reflect"
 	goruntime "runtime"
 	"strings"
+	"sync"
 
 	"github.com/robertkrimen/otto"
 
@@ -63,14 +64,21 @@ type intPayload struct {
 	make      func(vm *otto.Otto) (val interface{}, isNil bool)
 }
 
-var scratchRangeError = func() *otto.Error {
-	_, err := otto.New().Run(`throw new RangeError("halt")`)
-	var oe *otto.Error
-	if !errors.As(err, &oe) {
-		panic("c18: cannot build an *otto.Error")
-	}
-	return oe
-}()
+var scratchRangeErrorOnce sync.Once
+var scratchRangeErrorValue *otto.Error
+
+// scratchRangeError builds the *otto.Error lazily (nothing of otto runs at package initialisation).
+func scratchRangeError() *otto.Error {
+	scratchRangeErrorOnce.Do(func() {
+		_, err := otto.New().Run(`throw new RangeError("halt")`)
+		var oe *otto.Error
+		if !errors.As(err, &oe) {
+			panic("c18: cannot build an *otto.Error")
+		}
+		scratchRangeErrorValue = oe
+	})
+	return scratchRangeErrorValue
+}
 
 var intPayloads = []intPayload{
 	{name: "error_pointer", make: func(*otto.Otto) (interface{}, bool) { return errors.New("halt"), false }},
@@ -90,7 +98,7 @@ var intPayloads = []intPayload{
 	{name: "nan", primitive: true, jsText: "number:NaN", jsCanon: "d:NaN", make: func(*otto.Otto) (interface{}, bool) { return math.NaN(), false }},
 	{name: "struct_nan", make: func(*otto.Otto) (interface{}, bool) { return haltNaN{math.NaN()}, false }},
 	{name: "otto_value", exception: true, make: func(vm *otto.Otto) (interface{}, bool) { return vm.MakeCustomError("Halt", "stop"), false }},
-	{name: "otto_error", exception: true, make: func(*otto.Otto) (interface{}, bool) { return scratchRangeError, false }},
+	{name: "otto_error", exception: true, make: func(*otto.Otto) (interface{}, bool) { return scratchRangeError(), false }},
 }
 
 func runInterruptValue(r *engine.Run) {
